@@ -391,6 +391,16 @@ impl VersionSet {
             }
         }
 
+        if maybe_manifest_read_error.is_none() && manifest_reader.num_corrupted_records_skipped() > 0
+        {
+            // Unlike the write-ahead log, the manifest cannot tolerate dropped records: every
+            // version change after a dropped record would be applied to the wrong file set
+            maybe_manifest_read_error = Some(RecoverError::ManifestParse(format!(
+                "The manifest file has {} corrupted record(s).",
+                manifest_reader.num_corrupted_records_skipped()
+            )));
+        }
+
         if maybe_manifest_read_error.is_none() {
             if maybe_curr_file_num.is_none() {
                 maybe_manifest_read_error = Some(RecoverError::ManifestParse(
